@@ -1,4 +1,4 @@
-from checks.mux_common import mc, drive, validate, __doc__  # noqa
+from checks.mux_common import mc, drive, validate, gated_replay, __doc__  # noqa
 import vlib
 
 
@@ -41,34 +41,6 @@ def notify_slot(ctx, q):
     ctx.assume("notify-slot events are emitted by verif-hooks inside the slot's critical sections; the lock-free channel send, receiver drop and try_recv are silent / inv-res steps placed by TLC")
 
 
-def gated_replay(ctx, q):
-    """spec -> impl: ClientMux behaviours sampled by TLC (simulation mode, history variable of action labels) are
-    single-stepped on the three real clients through the probes cm_allocated / cm_registered / cm_written (callers)
-    and cm_reader_read (reader); after every step the size of the pending map, and at every Take the caller's
-    result, must equal the specification's."""
-    import json
-    n = 300 if q else 3000
-    beh = ctx.tlc_generate("MC_ClientMuxGen", "MC_ClientMuxGen.cfg", ["ClientMux.tla"], timeout=1200,
-                           extra_args=["-simulate", f"num={n}", "-depth", "80", "-seed", str(ctx.seed)])
-    total = {"behaviours": 0, "steps": 0}
-    for kind in ("sync", "async", "ws"):
-        out = ctx.work / f"replay-{kind}.json"
-        ctx.vh("mux-replay", "--client", kind, "--behaviours", beh, "--out", out, timeout=1500)
-        r = json.loads(out.read_text())
-        total["behaviours"] += r["behaviours"]
-        total["steps"] += r["steps"]
-        for f in r["failures"]:
-            step = f["what"].split(":")[0]
-            label = step.split(" ")[2].split("(")[0] if len(step.split(" ")) > 2 else "?"
-            ctx.violation(f"mux-replay:{kind}:{label}", f"{kind} client, replaying a ClientMux behaviour: {f['what']}", f)
-        if r["behaviours"] < n // 2 and not r["failures"]:
-            raise vlib.ToolError(f"only {r['behaviours']} behaviours replayed on the {kind} client")
-    ctx.coverage["gated_replay"] = total
-    ctx.coverage["traces_validated_against_impl"] += total["behaviours"]
-    ctx.coverage["evaluations"] += total["steps"]
-    ctx.assume("the probes park a caller after id allocation, after registration and after its write, and the reader after each frame it read; the harness lets exactly one of them proceed per specification step")
-
-
 def run(ctx):
     q = not ctx.thorough
     mc(ctx, ["cancel", "quick3"], ["cancel", "quick"])
@@ -81,7 +53,7 @@ def run(ctx):
     ctx.coverage["exhaustive"] = True
     ctx.coverage["explanation"] = f"every permutation of {n} concurrent calls per client kind; interleavings of callers and reader at register/write/receive/match/deliver granularity are exhausted in the TLC model only"
     notify_slot(ctx, q)
-    gated_replay(ctx, q)
+    gated_replay(ctx, q, "MC_ClientMuxGen.cfg")
     evs = vlib.read_ndjson(runs[2][1])
     ctx.sample({"kind": "one scripted scenario against the WebSocket client", "events": evs[:16]})
     ctx.assume("the scripted server learns which caller issued which id from a tag in the request path",
